@@ -1,14 +1,48 @@
 /-
   SpecKitV.Drv.ExtBuildQ — driver operations of the generated region `BuildQ` (extension point: `dispatch op` returns
   `some handler` for the operations this file serves).  Mathlib-free.
+
+  `buildq L order` → `none` when the TRANSLATED `Gen._build_Q L order` (executed in Float) is `none` (the Python raises), else
+  `rows cols | entries…` (row-major) of the matrix it returns.
+  `buildqproj L order v` → `none`, or the `L` entries of `Q (Qᵀ v)` for the translated basis `Q` (the projector does not depend on the
+  signs of the columns of `Q`); sums accumulate left to right.
 -/
 import SpecKitV.Drv.Base
+import SpecKitV.Gen.BuildQ
 
 namespace Drv.ExtBuildQ
 open Drv
 
+/-- evaluate every entry once -/
+def cells (g : Arr2 Float) : Array (Array Float) :=
+  (Array.range g.n).map (fun i => (Array.range g.m).map (fun j => g.get i j))
+
+def opBuildQ : M String := do
+  let L ← nat
+  let order ← int
+  match Gen._build_Q (α := Float) L order with
+  | none => return "none"
+  | some g =>
+    let c := cells g
+    return s!"{g.n} {g.m} | " ++ joinF (c.toList.flatMap (fun row => row.toList))
+
+def opBuildQProj : M String := do
+  let L ← nat
+  let order ← int
+  let v ← fltArr
+  match Gen._build_Q (α := Float) L order with
+  | none => return "none"
+  | some g =>
+    let c := cells g
+    let q : Nat → Nat → Float := fun i j => (c.getD i #[]).getD j nan
+    let coef : Array Float := (Array.range g.m).map (fun k => sumRange g.n (fun m => q m k * v.getD m nan))
+    let out := (List.range g.n).map (fun n => sumRange g.m (fun k => q n k * coef.getD k nan))
+    return joinF out
+
 def dispatch (op : String) : Option (M String) :=
   match op with
+  | "buildq" => some opBuildQ
+  | "buildqproj" => some opBuildQProj
   | _ => none
 
 end Drv.ExtBuildQ
